@@ -707,6 +707,17 @@ package cache
 //@   assert at call middleware/cache.withoutClientSubnet#1: arg0 == lastret("(*github.com/miekg/dns.Msg).IsEdns0").Option && lastret("(*github.com/miekg/dns.Msg).IsEdns0") != nil
 //@   assert at call (*middleware/cache.Cache).prefetchExchange#1: arg2 == prefetchReq && prefetchReq == lastret("(*github.com/miekg/dns.Msg).Copy") && (lastret("(*github.com/miekg/dns.Msg).IsEdns0") != nil ==> calls("middleware/cache.withoutClientSubnet") == 1)
 //@   assert at call (*middleware/cache.Store).ReplaceIfCurrent#1: arg1 == req.Key && arg2 == req.Entry && arg3 == lastret("(*middleware/cache.Cache).prefetchExchange") && lastret("(*middleware/cache.Cache).prefetchExchange", 1) == nil && (!lastret("internal/ecs.ReadResponseScope", 1) || lastret("(*middleware/cache.CacheEntry).scoped#1"))
+//@   # C04: the subtree cut and the denial-proof records of a refresh are published only after the compare-and-swap on the
+//@   # answer key succeeded
+//@   assert at call (*middleware/cache.Store).RecordDenialProof#1: lastret("(*middleware/cache.Store).ReplaceIfCurrent")
+//@   assert at call (*middleware/cache.Store).RecordNXDomainCut#1: lastret("(*middleware/cache.Store).ReplaceIfCurrent")
+//@   # C04, KNOWN FINDING (recorded, not repaired - see /verif/known_findings.json, DESIGN 8.11): "a background refresh
+//@   # that completes after newer data was stored for the key never overwrites it" holds for the answer key only. The
+//@   # cut and the proof records have keys of their own (denied name; zone, owner and kind); a client-path write made
+//@   # under one of them while the refresh was in flight is replaced by the refresh's older data, because both writers
+//@   # are latest-wins. The obligation: the refresh publishes them only after asking whether something newer is held
+//@   assert at call (*middleware/cache.Store).RecordDenialProof#1: calls("(*middleware/cache.Store).nothingNewerSince") >= 1
+//@   assert at call (*middleware/cache.Store).RecordNXDomainCut#1: calls("(*middleware/cache.Store).nothingNewerSince") >= 1
 //@
 //@ # ---- C01: merging an alias target's response into the client's reply. The combined reply keeps AD only if the
 //@ # target leg was authenticated too - WHATEVER the target leg contributed (answer records, or only an authority
